@@ -15,6 +15,21 @@ CHECKS = {
                      "of a*sf/st, equiv_amount is the same term, and same-unit conversion returns the input term. Bounded (boxes, catalogue types), hence model_checking not proof.",
                 note="Trusted: rustc MIR dump, the executor and its iterator/Option summaries, the IEEE/fpdec rounding contracts, z3. Outside the bound: NaN/inf/subnormal "
                      "amounts, |decimal| > 1e17, user-defined types (astronomical/synthetic types only in thorough tier).", ref="7 C01"),
+    "C02": dict(engine="mirsmt", technique="MIR symbolic execution + SMT (z3: QF_LRA order obligations, QF_UF symmetry/exactness, QF_FP bit-precise re-decision of candidates); native replay",
+                text="Bounded model checking: for every type with reference unit and every ordered unit pair, for ALL amount pairs in the box the solver shows that partial_cmp and == "
+                     "agree with the exact order of the magnitudes whenever they differ by more than the stated tolerance, that equal units reduce to the amount type's own comparison, and that "
+                     "==, <, >, Equal are independent of operand order for all non-NaN amounts (uninterpreted amount arithmetic with a total order; a SAT answer is re-decided bit-precisely and replayed natively).",
+                note="Trusted: as C01. <, <=, >, >=, != are taken as std's documented derivations from partial_cmp/eq. Symmetry is shown for any amount arithmetic whose ==/< are symmetric/antisymmetric and total on the compared values (true for non-NaN f64 and for decimals).",
+                ref="7 C02"),
+    "C03": dict(engine="mirsmt", technique="MIR symbolic execution + SMT (z3: QF_LRA for +/-, QF_NRA for the ratio, QF_UF exactness); native replay",
+                text="Bounded model checking: for every type with reference unit and ordered unit pair the solver shows for ALL amount pairs in the box that a+b and a-b carry the left unit and are within "
+                     "tolerance of the exact sum/difference of magnitudes, that a/b is within tolerance of the ratio of magnitudes, and that equal units give exactly the amount type's own +, -, /.",
+                note="Trusted: as C01. Ratio box: 2^-400..2^400 (f64); decimal divisor at least 2e-18(1+|b|) in the dividend's unit.", ref="7 C03"),
+    "C04": dict(engine="mirsmt", technique="MIR symbolic execution + SMT (z3: QF_NRA value obligations per path, QF_UF for the borrowed-operand forms); native replay",
+                text="Bounded model checking: for each of the 34 derived operator instances found in the MIR (compared with the declared derivations), every operand unit pair and every path "
+                     "(natural unit or each unit _fit can choose) the solver shows for ALL amount pairs in the box that the result magnitude equals the product/quotient of the operand magnitudes "
+                     "within tolerance, and that the three borrowed-operand forms return the same unit and term as the owned form.",
+                note="Trusted: as C01. Borrowed forms on a subset of unit rows in quick, all rows in thorough. The multiply-then-divide consequence follows from two tolerance statements.", ref="7 C04"),
     "C16": dict(engine="kani", technique="Kani/CBMC bounded model checking (SAT) over symbolic index / i8 / bounded strings",
                 text="Bounded model checking of the compiled SIPrefix code against the SI-brochure table: every iterated prefix (symbolic index), "
                      "from_exp for all 256 i8 values, from_abbr for every UTF-8 string up to 3 bytes (4 in thorough), pairwise distinctness. "
